@@ -119,10 +119,15 @@ def parseCD : Nat → Nat → Bytes → Option (List CDInfo)
                                  csize := csize, usize := usize, offset := off }
           (parseCD fuel (remaining - (46 + nlen + elen + clen)) (data.drop (46 + nlen + elen + clen))).map (info :: ·)
 
-/-- `ZipFile.open(name).read()`: local header (30 bytes, signature), the name stored there must be the
-    directory's, `compress_size` stored bytes, decompression by method, CRC-32 of the result -/
-def readMember (crc32 : Bytes → Nat) (inflate : Bytes → Option Bytes) (file : Bytes) (concat : Nat) (i : CDInfo) : Option Bytes :=
-  let loc := file.drop (i.offset + concat)
+/-- `ZipFile.open(name).read()`: the local header is looked for at `header_offset + concat` with
+    `concat = start_dir - offset_cd` (an INTEGER: negative when the archive was written at a file position that is no
+    longer in front of it, as for the `.npz` blob of a DQM file handed to `np.load` on its own; a negative position is
+    an error).  Local header (30 bytes, signature), the name stored there must be the directory's, `compress_size`
+    stored bytes, decompression by method, CRC-32 of the result. -/
+def readMember (crc32 : Bytes → Nat) (inflate : Bytes → Option Bytes) (file : Bytes) (startDir offsetCd : Nat) (i : CDInfo) : Option Bytes :=
+  if i.offset + startDir < offsetCd then none               -- seek to a negative position
+  else
+  let loc := file.drop (i.offset + startDir - offsetCd)
   let h := loc.take 30
   if h.length ≠ 30 ∨ h.take 4 ≠ sigLocal then none
   else if i.flags % 2 = 1 then none                       -- encrypted: a password is required
@@ -138,26 +143,24 @@ def readMember (crc32 : Bytes → Nat) (inflate : Bytes → Option Bytes) (file 
         | none => none
         | some content => if crc32 content = i.crc then some content else none   -- "Bad CRC-32"
 
-def readMembers (crc32 : Bytes → Nat) (inflate : Bytes → Option Bytes) (file : Bytes) (concat : Nat) :
+def readMembers (crc32 : Bytes → Nat) (inflate : Bytes → Option Bytes) (file : Bytes) (startDir offsetCd : Nat) :
     List CDInfo → Option (List (Bytes × Bytes))
   | [] => some []
   | i :: is =>
-    match readMember crc32 inflate file concat i with
+    match readMember crc32 inflate file startDir offsetCd i with
     | none => none
-    | some b => (readMembers crc32 inflate file concat is).map ((i.name, b) :: ·)
+    | some b => (readMembers crc32 inflate file startDir offsetCd is).map ((i.name, b) :: ·)
 
 /-- **the directory reader**: `_RealGetContents` after `_EndRecData`, then every member.
-    `concat = location - size_cd - offset_cd` (bytes in front of the archive: `0` for what dimod writes,
-    whose offsets are absolute); a negative `concat` is `BadZipFile`. -/
+    `start_dir = location - size_cd` (negative: `BadZipFile`, tested by `zipOpen`); every `header_offset` is shifted by
+    `concat = start_dir - offset_cd`. -/
 def readDirBytes (crc32 : Bytes → Nat) (inflate : Bytes → Option Bytes) (r : EndRec) (file : Bytes) : Option (List (Bytes × Bytes)) :=
   match r.startDir with
   | none => none
   | some sd =>
-    if sd < r.offsetCd then none
-    else
-      match parseCD (r.sizeCd + 1) r.sizeCd ((file.drop sd).take r.sizeCd) with
-      | none => none
-      | some infos => readMembers crc32 inflate file (sd - r.offsetCd) infos
+    match parseCD (r.sizeCd + 1) r.sizeCd ((file.drop sd).take r.sizeCd) with
+    | none => none
+    | some infos => readMembers crc32 inflate file sd r.offsetCd infos
 
 /-- member names as the `Archive` of the CQM / npz models has them (`str`; ASCII) -/
 def readDirChars (crc32 : Bytes → Nat) (inflate : Bytes → Option Bytes) (r : EndRec) (file : Bytes) : Option Archive :=
